@@ -27,6 +27,10 @@ package main
 //	deferred     the call is deferred
 //	nested       the call is a sub-expression of something else (its value is used)
 //
+// Calls of the anchor files' own helper functions that take the stream as a parameter (readByte(r), readBytes(r, n),
+// writeTag(w, ...), writeInt32(w, n), compressPacket(buff, ...)) are listed as idiom "call:<name>" with the stream
+// argument and the same handling field, so that a delegation stays visible at the caller.
+//
 // Gen/C09gen.v: c09_io_calls (compared with the recorded table of Proofs/C09_idioms.v and judged by the policy
 // predicates there: no bare Read outside the two wrappers, no ReadAtLeast / LimitReader / io.Copy / bufio, every
 // Write on a destination writer has its error bound) and c09_io_sites (the same entries with file:line, for the
@@ -90,14 +94,43 @@ func c09Text(fset *token.FileSet, n ast.Node) string {
 
 func c09q(s string) string { return "\"" + strings.ReplaceAll(s, "\"", "\"\"") + "\"" }
 
+// c09StreamTypes: a package-level function with a parameter of one of these types is a HELPER the stream is handed
+// to; its calls are listed as idiom "call:<name>" (the helper's own body is in the table under its own name)
+var c09StreamTypes = map[string]bool{"io.Reader": true, "io.Writer": true, "io.ByteReader": true, "DecoderReader": true, "nbt.DecoderReader": true}
+
 func genC09(repo string) (string, error) {
 	var all []c09Entry
+	// pass 1: the helpers of every anchor directory
+	helpers := map[string]map[string]bool{}
 	for _, rel := range c09Files {
 		fset := token.NewFileSet()
 		f, err := parser.ParseFile(fset, filepath.Join(repo, rel), nil, parser.SkipObjectResolution)
 		if err != nil {
 			return "", err
 		}
+		dir := rel[:strings.LastIndex(rel, "/")]
+		if helpers[dir] == nil {
+			helpers[dir] = map[string]bool{}
+		}
+		for _, d := range f.Decls {
+			fd, ok := d.(*ast.FuncDecl)
+			if !ok || fd.Recv != nil || fd.Type.Params == nil {
+				continue
+			}
+			for _, p := range fd.Type.Params.List {
+				if c09StreamTypes[c09Text(fset, p.Type)] {
+					helpers[dir][fd.Name.Name] = true
+				}
+			}
+		}
+	}
+	for _, rel := range c09Files {
+		fset := token.NewFileSet()
+		f, err := parser.ParseFile(fset, filepath.Join(repo, rel), nil, parser.SkipObjectResolution)
+		if err != nil {
+			return "", err
+		}
+		dir := rel[:strings.LastIndex(rel, "/")]
 		for _, d := range f.Decls {
 			fd, ok := d.(*ast.FuncDecl)
 			if !ok || fd.Body == nil {
@@ -157,6 +190,15 @@ func genC09(repo string) (string, error) {
 			ast.Inspect(fd.Body, func(n ast.Node) bool {
 				c, ok := n.(*ast.CallExpr)
 				if !ok {
+					return true
+				}
+				if id, ok := c.Fun.(*ast.Ident); ok && helpers[dir][id.Name] && len(c.Args) > 0 {
+					h := handling[c]
+					if h == "" {
+						h = "nested"
+					}
+					p := fset.Position(c.Pos())
+					all = append(all, c09Entry{name, "call:" + id.Name, c09Text(fset, c.Args[0]), "", h, fmt.Sprintf("%s:%d", rel, p.Line)})
 					return true
 				}
 				sel, ok := c.Fun.(*ast.SelectorExpr)
